@@ -112,6 +112,12 @@ CHECKS = {
     "fee<=1000": ["txn Fee", "int 1000", "<=", "assert"],
     "size==2||free": [FREE, "global GroupSize", "int 2", "==", "||", "assert"],
     "!(size==4)": ["global GroupSize", "int 4", "==", "!", "assert"],
+    "gtxn1.rekey==zero": ["gtxn 1 RekeyTo", "global ZeroAddress", "==", "assert"],
+    "gtxns(1).rekey==zero": ["int 1", "gtxns RekeyTo", "global ZeroAddress", "==", "assert"],
+    "rel+1.rekey==zero": ["txn GroupIndex", "int 1", "+", "gtxns RekeyTo", "global ZeroAddress", "==", "assert"],
+    "rel-1.rekey==zero": ["txn GroupIndex", "int 1", "-", "gtxns RekeyTo", "global ZeroAddress", "==", "assert"],
+    "index==1": ["txn GroupIndex", "int 1", "==", "assert"],
+    "index!=1": ["txn GroupIndex", "int 1", "!=", "assert"],
 }
 CONDS = {
     "free": [FREE],
@@ -120,6 +126,8 @@ CONDS = {
     "rekey==zero": ["txn RekeyTo", "global ZeroAddress", "=="],
     "fee<=1000": ["txn Fee", "int 1000", "<="],
     "size!=3": ["global GroupSize", "int 3", "!="],
+    "gtxn1.rekey==zero": ["gtxn 1 RekeyTo", "global ZeroAddress", "=="],
+    "index==1": ["txn GroupIndex", "int 1", "=="],
 }
 
 
